@@ -13,7 +13,7 @@ Theorem C03_ack_authentic :
          (on_recv : A -> packet -> option (A * option bytes))
          (on_ack : A -> packet -> bytes -> option A),
     (forall x y, H x = H y -> x = y) ->
-    forall (n0 : net A) (ops : list nop) (i : nat) (ci : chain A) (now : N)
+    forall (n0 : net A) (ops : list (nop A)) (i : nat) (ci : chain A) (now : N)
            (p : packet) (a : bytes) (pf : proof) (h : N) (c' : chain A) (ev : list event),
       net_init A n0 -> Forall nop_ok ops -> wfp p ->
       nth_error (nrun A H has_route on_recv on_ack n0 ops) i = Some ci ->
@@ -80,7 +80,7 @@ Theorem C03_acks_explained :
   forall (A : Type) (H : bytes -> bytes) (has_route : bytes -> bool)
          (on_recv : A -> packet -> option (A * option bytes))
          (on_ack : A -> packet -> bytes -> option A)
-         (c : chain A) (o : op) (c' : chain A) (ev log : list event),
+         (c : chain A) (o : op A) (c' : chain A) (ev log : list event),
     op_wf o -> exec A H has_route on_recv on_ack c o = Some (c', ev) ->
     kv_explained H (c_kv A c) log -> kv_explained H (c_kv A c') (log ++ ev).
 Proof. exact exec_explained. Qed.
